@@ -20,13 +20,15 @@
 (*    Fails(...) is the same predicate clause by clause (for signatures).   *)
 (*    Only this layer decides.                                              *)
 (*  - impl-shaped: renumber_objects_with of src/processor.rs transcribed    *)
-(*    (page-order pass, dense pass, traverse_objects, per-pair bookmark     *)
-(*    updates).  Step operators are used one per action by RenumberSys and  *)
-(*    folded by ImplRenumber.  Two switches reproduce confirmed deviations: *)
+(*    (page-order pass, dense pass, traverse_objects, bookmark table        *)
+(*    renamed through the whole map).  Step operators are used one per      *)
+(*    action by RenumberSys and folded by ImplRenumber.  Two switches        *)
+(*    re-create the deviations that were confirmed and then repaired in     *)
+(*    lopdf (fix: 15b16d5; c3b4cbb, 056314e):                               *)
 (*      devChain = TRUE : bookmark targets are rewritten pair by pair       *)
 (*      devDang  = TRUE : a reference to a non-existent object is left      *)
 (*                        alone (and may be captured by the new numbering)  *)
-(*    with both FALSE the algorithm is "as repaired".                       *)
+(*    with both FALSE the algorithm is the code as it is.                   *)
 (***************************************************************************)
 EXTENDS Integers, Sequences, FiniteSets, TLC, SequencesExt
 
@@ -38,7 +40,7 @@ PT == INSTANCE PageTree      \* Dfs / ImplPages (PageTree!Acceptable would clash
 IdOf(o)   == <<o.n, o.g>>
 MkRef(id) == [k |-> "ref", n |-> id[1], g |-> id[2]]
 NoId      == <<0, 70000>>                 \* never an object id (generations are < 65536)
-Tomb      == <<0, 65535>>                 \* head of the free list: where a repaired renumber sends dangling references
+Tomb      == <<0, 65535>>                 \* head of the free list: where renumber sends dangling references (DANGLING in processor.rs)
 None      == [k |-> "none"]
 
 IdLess(a, b) == a[1] < b[1] \/ (a[1] = b[1] /\ a[2] < b[2])
@@ -315,7 +317,8 @@ DensePairStep(s, old, devChain) ==
                  !.temp = IF has THEN MapPut(@, new, s.objs[old]) ELSE @,
                  !.bms  = IF devChain /\ old # new THEN BmUpdate(@, old, new) ELSE @]
 
-\* `self.max_id = new_id - 1` on u32 (overflow-checks on: start = 0 on an empty document panics)
+\* the repaired defect `self.max_id = new_id - 1` on u32 (start = 0 on an empty document panics); the code as it is
+\* saturates (max_id 0), which the users of SetMaxId model by overriding a panic result
 SetMaxId(s, start, n) ==
     IF start + n = 0 THEN [s EXCEPT !.panic = TRUE] ELSE [s EXCEPT !.max_id = start + n - 1]
 
